@@ -14,6 +14,7 @@ import (
 	"github.com/postalsys/muti-metroo/internal/protocol"
 	"github.com/postalsys/muti-metroo/internal/verifrt/simnet"
 	"github.com/postalsys/muti-metroo/internal/verifrt/simrt"
+	"github.com/postalsys/muti-metroo/internal/verifrt/simtransport"
 )
 
 // DrawMesh draws size, topology, timing and route placement for the flood family.
@@ -251,19 +252,199 @@ func runC13() {
 var hopLimits = []int{2, 1, 3, 4, 6, 16, 255}
 
 func runC15() {
-	m := DrawMesh(3, 7, []string{"chain", "tree", "ring", "random", "diamond", "star"})
-	PlaceRoutes(m, true)
+	var m *Mesh
+	ringK := 0
+	if simrt.Chance(1, 4, "lollipop") {
+		// a ring with a tail: when the ring link next to the origin fails, the
+		// tail's distance to the origin grows although its next hop stays the same
+		ringK = 3 + simrt.Choose(2, "ring-size")
+		m = NewMesh(ringK+2+simrt.Choose(2, "tail"), fmt.Sprintf("lollipop%d", ringK))
+		iv := AdvIntervals[simrt.Choose(len(AdvIntervals), "advint")]
+		for _, nd := range m.Nodes {
+			nd.Cfg.Routing.AdvertiseInterval = iv
+			nd.Cfg.Routing.RouteTTL = 5 * iv
+			if nd.Cfg.Routing.RouteTTL < time.Minute {
+				nd.Cfg.Routing.RouteTTL = time.Minute
+			}
+		}
+		simrt.Eventf("mesh n=%d topo=lollipop%d edges=%v advint=%v", len(m.Nodes), ringK, m.Edges, iv)
+		m.Nodes[0].Cfg.Exit.Enabled = true
+		m.Nodes[0].Cfg.Exit.Routes = append(m.Nodes[0].Cfg.Exit.Routes, "10.100.0.0/16")
+		simrt.Probe("c15_lollipop")
+	} else {
+		m = DrawMesh(3, 7, []string{"chain", "tree", "ring", "random", "diamond", "star"})
+		PlaceRoutes(m, true)
+	}
 	maxHops := hopLimits[simrt.Choose(len(hopLimits), "maxhops")]
+	if ringK > 0 {
+		maxHops = 2 + simrt.Choose(3, "maxhops-lollipop")
+	}
 	for _, nd := range m.Nodes {
 		nd.Cfg.Routing.MaxHops = maxHops
 	}
 	simrt.Eventf("max_hops=%d", maxHops)
 	obs := WatchAdverts(m)
-	BootAndConverge(m)
-	// a second settling period: periodic announcements and replays have all happened
-	Settle(m)
+	// reroute scenario: after convergence one link goes down for good (announcements
+	// now take a longer way round), the routes learned the short way are left to
+	// expire, and only then some agents join; distances are those of the mesh
+	// without the failed link
+	down := [2]int{-1, -1}
+	late := map[int]bool{}
+	obsFrom := 0
+	if ringK > 0 || (len(m.Edges) >= len(m.Nodes) && simrt.Chance(1, 2, "reroute")) {
+		if ringK > 0 {
+			for _, e := range m.Edges {
+				if (e[0] == 0 && e[1] == 1) || (e[0] == 1 && e[1] == 0) {
+					down = e
+				}
+			}
+			for i := ringK + 1; i < len(m.Nodes); i++ {
+				late[i] = true
+			}
+		} else {
+			down = m.Edges[simrt.Choose(len(m.Edges), "down-edge")]
+			for i := 1; i < len(m.Nodes); i++ {
+				if i != down[0] && i != down[1] && simrt.Chance(1, 3, "late") {
+					late[i] = true
+				}
+			}
+		}
+		// the late agents must not be needed to keep the others connected: start
+		// everything, converge, then stop the late ones again (they rejoin later)
+		BootAndConverge(m)
+		for i := range m.Nodes {
+			if late[i] {
+				m.Stop(i)
+			}
+		}
+		a, b := m.Nodes[down[0]].Name, m.Nodes[down[1]].Name
+		simtransport.Hooks().DialFault = func(from, to, addr string) error {
+			if (from == a && to == b) || (from == b && to == a) {
+				return fmt.Errorf("link %s-%s is down", a, b)
+			}
+			return nil
+		}
+		for _, l := range m.Net.Links() {
+			if l.Kind == "peer" && !l.Dead() && ((l.DialNode == a && l.AccNode == b) || (l.DialNode == b && l.AccNode == a)) {
+				l.Reset()
+			}
+		}
+		simrt.Eventf("reroute: link %s-%s down for good, late=%v", a, b, late)
+		simrt.Probe("c15_link_down_for_good")
+		// everything learned over the lost link or from the stopped agents expires
+		simrt.Sleep(m.Nodes[0].Cfg.Routing.RouteTTL + 2*m.Nodes[0].Cfg.Routing.AdvertiseInterval + 30*time.Second)
+		obsFrom = len(*obs)
+		for i := range m.Nodes {
+			if late[i] {
+				m.Start(i)
+				simrt.Probe("c15_late_joiner_after_reroute")
+			}
+		}
+		simrt.Sleep(time.Minute)
+		Settle(m)
+		Settle(m)
+	} else {
+		BootAndConverge(m)
+		// a second settling period: periodic announcements and replays have all happened
+		Settle(m)
+	}
+	// a far-away origin: a harness-controlled peer hands one agent an announcement
+	// that has already travelled L hops (its path lists L agents), L at or just
+	// below the limit. This reaches the limits no seven-agent mesh can reach by
+	// itself (16, 255).
+	synthHost, synthL := -1, 0
+	var synthOrigin identity.AgentID
+	if down[0] < 0 && (maxHops >= 16 || simrt.Chance(1, 3, "far-origin")) {
+		for i, nd := range m.Nodes {
+			if len(nd.Cfg.Listeners) > 0 {
+				synthHost = i
+				break
+			}
+		}
+	}
+	if synthHost >= 0 {
+		synthL = maxHops - simrt.Choose(3, "far-slack")
+		if synthL < 1 {
+			synthL = 1
+		}
+		rp, err := m.AttachRawPeer(synthHost, 5)
+		if err != nil {
+			simrt.Failf("harness", "raw peer attach failed", "%v", err)
+		}
+		path := []identity.AgentID{rp.ID}
+		for k := 1; k < synthL; k++ {
+			var id identity.AgentID
+			for b := range id {
+				id[b] = 0xc0
+			}
+			id[14], id[15] = byte(k>>8), byte(k)
+			path = append(path, id)
+		}
+		synthOrigin = path[len(path)-1]
+		adv := &protocol.RouteAdvertise{OriginAgent: synthOrigin, Sequence: 1,
+			Routes:  []protocol.Route{{AddressFamily: protocol.AddrFamilyIPv4, PrefixLength: 16, Prefix: []byte{10, 240, 0, 0}, Metric: uint16(synthL)}},
+			EncPath: &protocol.EncryptedData{Data: protocol.EncodePath(path)}, SeenBy: []identity.AgentID{rp.ID}}
+		rp.Send(&protocol.Frame{Type: protocol.FrameRouteAdvertise, StreamID: protocol.ControlStreamID, Payload: adv.Encode()})
+		simrt.Eventf("far origin: %s receives an announcement that has travelled %d hops (max_hops=%d)", m.Nodes[synthHost].Name, synthL, maxHops)
+		simrt.Probe("c15_far_origin_injected")
+		Settle(m)
+		dist := m.Dist(synthHost)
+		for i, nd := range m.Nodes {
+			total := synthL + dist[i]
+			holds := false
+			for _, r := range m.RoutesAt(i) {
+				if r.Origin == synthOrigin {
+					holds = true
+					if total > maxHops {
+						simrt.Failf("stored-beyond-hop-limit", "agent beyond max_hops stores a route of the origin", "max_hops=%d: %s is %d hops from the far origin (%d travelled before %s + %d) but holds %s", maxHops, nd.Name, total, synthL, m.Nodes[synthHost].Name, dist[i], m.RouteStr(r))
+					}
+				}
+			}
+			if total > maxHops {
+				simrt.Probe("c15_agent_beyond_limit_of_far_origin")
+				for _, o := range *obs {
+					if o.Origin == synthOrigin && o.From == nd.Name {
+						simrt.Failf("forwarded-beyond-hop-limit", "agent beyond max_hops forwards the origin's announcement", "max_hops=%d: %s is %d hops from the far origin but sent its announcement to %s", maxHops, nd.Name, total, o.To)
+					}
+				}
+			} else if holds {
+				simrt.Probe("c15_far_origin_learned_within_limit")
+			}
+		}
+		rp.Close()
+	}
+	distFrom := func(src int) []int {
+		if down[0] < 0 {
+			return m.Dist(src)
+		}
+		adj := map[int][]int{}
+		for _, e := range m.Edges {
+			if e == down {
+				continue
+			}
+			adj[e[0]] = append(adj[e[0]], e[1])
+			adj[e[1]] = append(adj[e[1]], e[0])
+		}
+		d := make([]int, len(m.Nodes))
+		for i := range d {
+			d[i] = 1 << 20
+		}
+		d[src] = 0
+		todo := []int{src}
+		for len(todo) > 0 {
+			x := todo[0]
+			todo = todo[1:]
+			for _, y := range adj[x] {
+				if d[y] > d[x]+1 {
+					d[y] = d[x] + 1
+					todo = append(todo, y)
+				}
+			}
+		}
+		return d
+	}
 	for j, od := range m.Nodes {
-		dist := m.Dist(j)
+		dist := distFrom(j)
 		for i, nd := range m.Nodes {
 			if i == j {
 				continue
@@ -275,7 +456,7 @@ func runC15() {
 						simrt.Failf("stored-beyond-hop-limit", "agent beyond max_hops stores a route of the origin", "max_hops=%d: %s is %d hops from %s but holds %s", maxHops, nd.Name, dist[i], od.Name, m.RouteStr(r))
 					}
 				}
-				for _, o := range *obs {
+				for _, o := range (*obs)[obsFrom:] {
 					if o.Origin == od.ID && o.From == nd.Name {
 						simrt.Failf("forwarded-beyond-hop-limit", "agent beyond max_hops forwards the origin's announcement", "max_hops=%d: %s is %d hops from %s but sent its announcement (seq %d) to %s", maxHops, nd.Name, dist[i], od.Name, o.AdvSeq, o.To)
 					}
@@ -299,7 +480,7 @@ func runC15() {
 	// agent before a shorter copy, the seen cache drops the shorter one and the
 	// agent does not forward. Counted, not flagged.
 	for j, od := range m.Nodes {
-		dist := m.Dist(j)
+		dist := distFrom(j)
 		for i := range m.Nodes {
 			if i == j || dist[i] > maxHops {
 				continue
